@@ -189,39 +189,75 @@ def _sh(script: str):
                           stdin=subprocess.DEVNULL, timeout=20, **sb.kw)
 
 
-def _split0(out: bytes):
-    parts = out.split(b"\0")
-    if len(parts) < 2 or parts[-1] != b"":
+def _record(words):
+    """[count, w1 … wn] as bytes -> [w1 … wn] as text, None if it is not exactly one such record"""
+    if not words:
         return None
     try:
-        n = int(parts[0])
+        n = int(words[0])
     except ValueError:
         return None
-    words = parts[1:-1]
-    if len(words) != n:
+    if len(words) != n + 1:
         return None
-    return [w.decode("utf-8", "surrogateescape") for w in words]
+    return [w.decode("utf-8", "surrogateescape") for w in words[1:]]
+
+
+SH_BATCH = 40
+
+
+def _sh_chunk(prefix, entries):
+    """Run sh source fragments one after the other in as few sh processes as possible; after each fragment a marker
+    word is printed. A fragment that aborts the script (syntax error, exit) yields None and the rest is run again
+    in a fresh process."""
+    out = [None] * len(entries)
+    i = 0
+    while i < len(entries):
+        if entries[i] is None or "\0" in entries[i]:
+            i += 1
+            continue
+        part = []
+        for k in range(i, min(i + SH_BATCH, len(entries))):
+            if entries[k] is None or "\0" in entries[k]:
+                break
+            part.append(entries[k])
+        script = prefix + "".join(f"{e}\nprintf '%s\\0' __C09_END_{n}__\n" for n, e in enumerate(part))
+        words = _sh(script).stdout.split(b"\0")[:-1]
+        k, cur = 0, []
+        for w in words:
+            if k < len(part) and w == f"__C09_END_{k}__".encode():
+                out[i + k] = _record(cur)
+                k, cur = k + 1, []
+            else:
+                cur.append(w)
+        i += k if k == len(part) else k + 1
+    return out
+
+
+def _sh_many(prefix, entries):
+    parts = [entries[i:i + SH_BATCH * 4] for i in range(0, len(entries), SH_BATCH * 4)]
+    return [w for part in pmap(lambda p: _sh_chunk(prefix, p), parts) for w in part]
+
+
+_CURL_FN = "curl() { printf '%s\\0' \"$#\" \"$@\"; }\n"
+
+
+def sh_commands_argv(cmds):
+    """Execute each printed command text verbatim with /bin/sh; a shell function named `curl` captures its arguments.
+    -> for each command ['curl', *args], or None (not run: None / NUL; or sh failed, or curl was not called once)."""
+    return [None if w is None else ["curl", *w] for w in _sh_many(_CURL_FN, cmds)]
+
+
+def sh_lines_words(lines):
+    """the words sh makes of each line (as the arguments of `set --`)"""
+    return _sh_many("", [None if ln is None else f"set -- {ln}\nprintf '%s\\0' \"$#\" \"$@\"" for ln in lines])
 
 
 def sh_command_argv(cmd: str):
-    """Execute the printed command text verbatim with /bin/sh; a shell function named `curl` captures its arguments.
-    Returns ['curl', *args] or None (sh failed)."""
-    if "\0" in cmd:
-        return None
-    r = _sh("curl() { printf '%s\\0' \"$#\" \"$@\"; }\n" + cmd)
-    if r.returncode != 0:
-        return None
-    w = _split0(r.stdout)
-    return None if w is None else ["curl", *w]
+    return sh_commands_argv([cmd])[0]
 
 
 def sh_line_words(line: str):
-    if "\0" in line:
-        return None
-    r = _sh("set -- " + line + "\nprintf '%s\\0' \"$#\" \"$@\"")
-    if r.returncode != 0:
-        return None
-    return _split0(r.stdout)
+    return sh_lines_words([line])[0]
 
 
 def pmap(fn, items, workers=8):
@@ -501,9 +537,11 @@ def corr_quote(chk, drv):
     # independent oracle: the real sh on a sample of the implementation's outputs
     sample = strings[:1 + 12 + 144 + 1728] + chk.rng.sample(strings, chk.budget(1200, 12000))
     sample = [s for s in sample if "\0" not in s]
-    got = pmap(lambda s: sh_line_words(curl_mod.quote(s)), sample)
+    got = sh_lines_words([curl_mod.quote(s) for s in sample])
     for s, w in zip(sample, got):
         chk.case("quote:real-sh", key=s, nontrivial=True)
+        if w != [s]:
+            w = sh_line_words(curl_mod.quote(s))    # alone in a fresh shell
         if w != [s]:
             chk.violation("C09:shlex.quote:real-sh-reads-something-else", "the real sh does not read quote(s) back as s",
                           {"kind": "quote", "s": s, "impl": curl_mod.quote(s), "sh": w})
@@ -563,7 +601,7 @@ def judge_commands(chk, drv, mechanism, items, tbl, auto, real_sh=True):
     all_items, items = items, [it for it in items if it[0] is not None]
     outs = drv.batch([("judge", {"auto": auto, "orig": it[1], "cmd": it[0]}) for it in items])
     # (a request `requests` would have rejected — e.g. a method with shell operators — is never handed to a real shell)
-    shs = pmap(lambda it: sh_command_argv(it[0]) if real_sh and (len(it) < 5 or it[4]) else None, items)
+    shs = sh_commands_argv([it[0] if real_sh and (len(it) < 5 or it[4]) else None for it in items])
     outside = [(i, real) for i, (j, real) in enumerate(zip(outs, shs)) if j.get("argv") is None and real is not None]
     if outside:
         for (i, _), sem in zip(outside, drv.batch([("curlsem", {"argvs": [real for _, real in outside]})])[0]):
@@ -582,6 +620,8 @@ def _judge_verdicts(chk, mechanism, items, outs, shs, tbl, auto, real_sh):
         # specification (a) against the real sh, on exactly the text the implementation printed
         if real_sh and (len(it) < 5 or it[4]) and "\0" not in cmd:
             chk.case(f"{mechanism}:sh-spec", key=cmd, nontrivial=True)
+            if j["argv"] is not None and real != j["argv"]:
+                real = sh_command_argv(cmd)     # alone in a fresh shell: a neighbour in the batch may have interfered
             if j["argv"] is not None and real != j["argv"]:
                 raise InfraError(f"specification shParse differs from the real sh on {cmd!r}: spec={j['argv']} sh={real}")
         if not in_scope:
@@ -887,11 +927,13 @@ def validate_sh_spec(chk, drv):
     lines = [ln for ln in lines if "\0" not in ln and "\r" not in ln]
     outs = drv.batch([("shparse", {"ss": lines})])[0]
     todo = [(ln, o) for ln, o in zip(lines, outs) if o is not None]
-    real = pmap(lambda t: sh_line_words(t[0]), todo)
+    real = sh_lines_words([t[0] for t in todo])
     chk.feature("sh-spec:lines-in-fragment", len(todo))
     chk.feature("sh-spec:lines-outside-fragment", len(lines) - len(todo))
     for (ln, o), r in zip(todo, real):
         chk.case("sh-spec", key=ln, nontrivial=any(c in ln for c in "'\"\\"), sample={"line": ln, "words": o})
+        if r != o:
+            r = sh_line_words(ln)    # alone in a fresh shell
         if r != o:
             raise InfraError(f"specification shParse differs from the real sh on {ln!r}: spec={o} sh={r}")
 
